@@ -586,11 +586,12 @@ theorem sample_sort_step_lemma (c : Classifier) (useCalc : Bool) (p : Str) (rs :
 `env` bundles `smallsort_threshold`, `inssort_threshold`, `TreeBits`, the classifier variant, the
 big/small decision of `enqueue` (any function, hence every `sequential_threshold()` incl.
 `enable_rest_size`), the samples drawn by every step and the pivots of every MKQS step.  `EnvOk`:
-thresholds ≥ 1, `1 ≤ TreeBits ≤ 31`, an empty range is never sent into a sample step, sample indices
+thresholds ≥ 1, `1 ≤ TreeBits ≤ 15` (bucket ids are stored as `std::uint16_t`), an empty range is never sent into a sample step, sample indices
 are `< n`.  For NUL-free input strings a run of the model that does not exhaust its fuel (`sortAll_terminates`: none does
 with fuel ≥ `fuelFor strs`) returns a
 permutation of the strings, sorted in unsigned-byte lexicographic order, with an LCP array of the same
-length whose entries `1..` are the exact LCPs of neighbours; and no run ever reads outside a string,
+length whose entries `1..` are the exact LCPs of neighbours (as stored in `LcpType = std::uint32_t`;
+`sortAll_exact_lcps`); and no run ever reads outside a string,
 the sample array, the splitter tree or the LCP array (`Err.oob`) or hits an internal error.
 Base cases are the C03 model of `insertion_sort` (`C03.insertionSort`, LCP overload). -/
 theorem sortAll_correct (env : Env) (henv : EnvOk env) (fuel : Nat) (strs : List Str)
@@ -600,6 +601,37 @@ theorem sortAll_correct (env : Env) (henv : EnvOk env) (fuel : Nat) (strs : List
   have h := sortAll_safe henv fuel strs hnf
   refine ⟨fun r hr => h.of_ok hr, ?_, ?_⟩ <;>
   · intro e; rw [e] at h; exact absurd h.2 (by decide)
+
+/-- **Integer widths of the step structures lose nothing.**  The model stores into `u8` / `u16` / `lcpT`
+wherever the C++ stores into `unsigned char` / `std::uint8_t` / `std::uint16_t` / `LcpType`
+(`Model/C04Key.lean`).  The key-relative LCP values fit the `std::uint8_t` fields of `MKQSStep`
+(`lcp_lt_`, `lcp_eq_`, `lcp_gt_`) and the `unsigned char` return types; a `splitter_lcp[]` entry holds value and
+`0x80` flag side by side.  (A field that held `depth + lcpKeyType(..)` instead would be `u8 (depth + ..)` in the
+model and `sortAll_correct` would not be provable.)  Bucket ids fit the `std::uint16_t` bucket cache because
+`EnvOk` has `TreeBits ≤ 15` (used inside `sampleBody_safe`). -/
+theorem narrow_fields_lossless (a b : Key) :
+    u8 (lcpKeyType a b) = lcpKeyType a b ∧ u8 (lcpKeyDepth a) = lcpKeyDepth a ∧
+      lcpKeyType a b = (a ^^^ b).clz.toNat / 8 ∧ lcpKeyDepth a = 8 - a.ctz.toNat / 8 ∧
+      lcpEntry a b = lcpKeyType a b + (if lowByte b = 0 then 128 else 0) :=
+  ⟨u8_lcpKeyType a b, u8_lcpKeyDepth a, lcpKeyType_def a b, lcpKeyDepth_def a, lcpEntry_def a b⟩
+
+/-- **LCP values and `LcpType`.**  `SortedLcp` (the conclusion of `sortAll_correct`) states the LCP entries as
+stored in the `std::uint32_t` array: `lcpT (lcp a b)`.  When every input string is shorter than 2^32 characters
+these are the exact LCPs. -/
+theorem sortAll_exact_lcps {strs : List Str} {r : Res} (h : SortedLcp strs r)
+    (hshort : ∀ s ∈ strs, s.length < 4294967296) :
+    ∀ i, 0 < i → i < r.out.length →
+      r.lcp[i]? = some (lcp ((r.out[i - 1]?).getD []) ((r.out[i]?).getD [])) := by
+  intro i h0 hi
+  rw [h.2.2.2 i h0 hi]
+  congr 1
+  apply lcpT_of_lt
+  have hm : r.out[i] ∈ strs := h.1.mem_iff.1 (List.getElem_mem hi)
+  have h1 := hshort _ hm
+  have h2 : lcp ((r.out[i - 1]?).getD []) ((r.out[i]?).getD []) ≤ r.out[i].length := by
+    rw [List.getElem?_eq_getElem hi, Option.getD_some, lcp_eq_c03]
+    exact C03.lcp_le_right _ _
+  omega
 
 /-- **The answer is independent of the parameter set, the samples, the pivots and every big/small
 decision** (and hence of how the work is split into jobs). -/
